@@ -20,8 +20,11 @@ try:
         print("PATCH DOES NOT APPLY:", r.stdout); sys.exit(2)
     shutil.copy("/repo/Cargo.lock", wt) if os.path.exists("/repo/Cargo.lock") else None
     for pid in ids:
-        p = subprocess.run([os.path.join(V, "tools", "check"), pid, "--repo", wt, "--tier", tier], cwd=V,
-                           stdout=subprocess.PIPE, stderr=subprocess.STDOUT, universal_newlines=True)
+        try:
+            p = subprocess.run(["timeout", "-k", "10", "1200", os.path.join(V, "tools", "check"), pid, "--repo", wt, "--tier", tier], cwd=V,
+                               stdout=subprocess.PIPE, stderr=subprocess.STDOUT, universal_newlines=True)
+        except Exception as ex:
+            print("ERROR   %s %r" % (pid, ex)); continue
         keys = []
         for ln in p.stdout.splitlines():
             if ln.startswith("VIOLATION"):
